@@ -1,6 +1,6 @@
 (* Dispatch.v — one entry point `run op arg` for every executable model and spec.
    Used identically by the extracted runner (coq/extract) and by `Eval vm_compute` re-evaluation. *)
-From Verif Require Import PyVal Rows Enc ComparableGen AsIndicesGen Order Sort SortSpec Dedup DedupSpec Basics SetOps SetSpec Joins Relational HashJoins Reductions GroupSpec Machines Selects Transforms Reshape Csv.
+From Verif Require Import PyVal Rows Enc ComparableGen AsIndicesGen Order Sort SortSpec Dedup DedupSpec Basics SetOps SetSpec Joins Relational HashJoins Reductions GroupSpec Machines Selects Transforms Reshape Csv Tees.
 Open Scope Z_scope.
 
 Definition run_cmp (arg : val) : val :=
@@ -822,6 +822,77 @@ Definition run_csv_parse (arg : val) : val :=
   | _ => bad_input
   end.
 
+(* ---- pass-through views (C16) ---------------------------------------------------------------------------------------- *)
+Definition dec_chunk (v : val) : option (list Z) :=
+  match v with VStr s => Some s | VBytes s => Some s | _ => None end.
+Definition dec_item (v : val) : option (val * list Z) :=
+  match v with VSeq _ [r; c] => match dec_chunk c with Some x => Some (r, x) | None => None end | _ => None end.
+Definition csv_item (d : dialect) (v : val) : option (val * list Z) :=
+  match v with
+  | VSeq _ cells => match all_some (map csv_cell cells) with
+                    | Some cs => match write_row d cs with Some txt => Some (v, txt) | None => None end
+                    | None => None
+                    end
+  | _ => None
+  end.
+Definition enc_consumed (r : list val * list Z * list Z * bool) (complete : list Z) : val :=
+  let '(ys, w, m, fin) := r in vtuple [vlist ys; VStr w; vlist (map vint m); vbool fin; VStr complete].
+
+(* tee: (format, configuration, source, k) -> (rows obtained by k calls of next, sink after abandoning the iterator,
+   progress messages, exhausted?, what the corresponding to* function writes) *)
+Definition run_tee (arg : val) : val :=
+  match arg with
+  | VSeq _ [VStr fmt; cfg; VSeq _ src; kv] =>
+      match dec_nat kv with
+      | None => bad_input
+      | Some k =>
+          if zs_eqb fmt "csv" then
+            match cfg with
+            | VSeq _ [dl; qc; q; whv] =>
+                match dec_dialect dl qc q, dec_bool whv with
+                | Some d, Some wh =>
+                    match dec_all (csv_item d) src with
+                    | Some items => enc_consumed (consume k (tee_plain wh items)) (to_csv wh items)
+                    | None => bad_input
+                    end
+                | _, _ => bad_input
+                end
+            | _ => bad_input
+            end
+          else if zs_eqb fmt "pickle" then
+            match dec_bool cfg, dec_all dec_item src with
+            | Some wh, Some items => enc_consumed (consume k (tee_plain wh items)) (to_pickle wh items)
+            | _, _ => bad_input
+            end
+          else if zs_eqb fmt "text" then
+            match cfg, dec_all dec_item src with
+            | VSeq _ [p; e], Some items =>
+                match dec_opt dec_chunk p, dec_opt dec_chunk e with
+                | Some p', Some e' => enc_consumed (consume k (tee_text p' e' items)) (to_text p' e' items)
+                | _, _ => bad_input
+                end
+            | _, _ => bad_input
+            end
+          else if zs_eqb fmt "html" then
+            match cfg, dec_all dec_item src with
+            | VSeq _ [b; e], Some items =>
+                match dec_chunk b, dec_chunk e with
+                | Some b', Some e' => enc_consumed (consume k (tee_html b' e' items)) (to_html b' e' items)
+                | _, _ => bad_input
+                end
+            | _, _ => bad_input
+            end
+          else if zs_eqb fmt "progress" then
+            match dec_Z cfg with
+            | Some bs => if bs <=? 0 then bad_input else enc_consumed (consume k (progress_script bs src)) []
+            | None => bad_input
+            end
+          else if zs_eqb fmt "pass" then enc_consumed (consume k (passthrough_script src)) []
+          else bad_input
+      end
+  | _ => bad_input
+  end.
+
 Definition run (op : list Z) (arg : val) : val :=
   if zs_eqb op "cmp" then run_cmp arg
   else if zs_eqb op "sort" then run_sort arg
@@ -851,6 +922,7 @@ Definition run (op : list Z) (arg : val) : val :=
   else if zs_eqb op "reshape" then run_reshape arg
   else if zs_eqb op "csv_write" then run_csv_write arg
   else if zs_eqb op "csv_parse" then run_csv_parse arg
+  else if zs_eqb op "tee" then run_tee arg
   else if zs_eqb op "addfields" then run_addfields arg
   else if zs_eqb op "select" then run_select arg
   else if zs_eqb op "rowslice" then run_rowslice arg
